@@ -81,6 +81,24 @@ def state_bases(env, n, tier):
             c = lw.Unitary(_haar(2 * n + 1, 3 + hm))
             c.herald(ph, hm)
             yield f"generic {2 * n + 1}-mode unitary with herald({ph}, {hm}) set on the base circuit", c
+    if env.mode == "native" and n <= 2:
+        # two (or three) ancilla modes BETWEEN the two rails of one qubit: heralds declared on the base circuit itself, and ancillas that come
+        # from a heralded sub-circuit (internal modes of the base circuit)
+        from vf.tasks.t_history import U as _haar
+        for gap_at, photons in ((0, (0, 0)), (0, (1, 0)), (n - 1, (0, 1)), (0, (0, 0, 1))):
+            g = len(photons)
+            m = 2 * n + g
+            first = 2 * gap_at + 1
+            c = lw.Unitary(_haar(m, 5 + g + gap_at))
+            for j, k in enumerate(photons):
+                c.herald(k, first + j)
+            yield f"generic {m}-mode unitary, own heralds {photons} on modes {first}..{first + g - 1} (between the rails of qubit {gap_at})", c
+            sub = lw.Unitary(_haar(m, 9 + g + gap_at))
+            for j, k in enumerate(photons):
+                sub.herald(k, first + j)
+            c = lw.Circuit(2 * n)
+            c.add(sub, 0)
+            yield f"heralded {m}-mode sub-circuit added: ancillas {photons} between the rails of qubit {gap_at}", c
     if env.mode == "native":
         # states with tiny but non-zero Pauli expectations / populations (1e-3 ... 1e-7): nothing may be rounded away
         for eps in (6e-4, 3e-5, 1e-7):
@@ -168,8 +186,16 @@ def check_state_tomography(env, n, tier):
                            note="a second process() call after the base circuit was extended reconstructs the new state")
         if env.mode == "native":
             want = real_np.outer(amps2, real_np.conj(amps2)) / norm2
-            fid = tomo.fidelity(want)
+            fid = _fid(tomo, want)
             env.check_true(f"{name}.fidelity[n={n};{label}]", abs(fid - 1) < 1e-6, note="fidelity one against the expected matrix", model=dict(fidelity=float(fid)))
+
+
+def _fid(tomo, ref):
+    """the reported fidelity; a refusal of the (valid, computed) reference matrix counts as a wrong report, not as a crash of the check"""
+    try:
+        return tomo.fidelity(ref)
+    except Exception as e:  # noqa: BLE001
+        return float("nan") if not isinstance(e, (KeyboardInterrupt,)) else None
 
 
 def _eqmat(env, A, B):
@@ -248,6 +274,30 @@ def process_bases(env, n, tier):
                 c.add(qubit.CZ(), 0)
                 c.add(qubit.Ry(0.7), 2)
             yield label, c
+        if env.mode == "native":
+            # base circuits whose heralds are their OWN (groups unpacked, or declared with Circuit.herald): the qubit modes are then not 2i, 2i+1
+            # of the full mode list
+            c = lw.Circuit(4)
+            c.add(qubit.S(), 0)
+            c.add(qubit.Ry(0.4), 2)
+            c.add(qubit.CNOT(target_qubit=0), 0)
+            c.unpack_groups()
+            yield "CNOT(target 0).(S x Ry(0.4)), groups unpacked", c
+            c = lw.Circuit(4)
+            c.add(qubit.H(), 0)
+            c.add(qubit.CZ_Heralded(), 0)
+            c.add(qubit.T(), 2)
+            c.unpack_groups()
+            yield "T.CZ_Heralded.(H x I), groups unpacked", c
+    if n == 1 and env.mode == "native":
+        # a one-qubit process whose circuit has an own zero-photon herald between the rails
+        c = lw.Circuit(3)
+        c.mode_swaps({1: 2, 2: 1})
+        c.add(qubit.Ry(0.9), 0)
+        c.add(qubit.Rz(0.3), 0)
+        c.mode_swaps({1: 2, 2: 1})
+        c.herald(0, 1)
+        yield "Rz(0.3)Ry(0.9) on rails (0,2), own herald on mode 1", c
 
 
 def gate_matrix_of(env, base, n):
@@ -286,10 +336,12 @@ def check_li(env, n, tier):
         vals = [((a, b), choi[a, b] - ref[a, b]) for a in range(d) for b in range(d)]
         env.check_all_zero(f"{name}.choi[n={n};{label}]", vals, note="linear inversion on noiseless data returns exactly choi_from_unitary(V)")
         if env.mode == "native":
-            fid = tomo.fidelity(real_np.array(ref, dtype=complex))
+            fid = _fid(tomo, real_np.array(ref, dtype=complex))
             env.check_true(f"{name}.fidelity[n={n};{label}]", abs(fid - 1) < 1e-6, note="fidelity one against the reference", model=dict(fidelity=float(fid)))
         # the same tomography object used again after its circuit was extended in place: the result describes the NEW process
         from lightworks import qubit as _q
+        if base._external_heralds["input"]:
+            continue            # heralds declared on the base circuit itself: mode 0/1 of add() are not the rails of qubit 0 (the extension below would not be a qubit gate)
         base.add(_q.S(), 0)
         base.add(_q.H(), 0)
         V2 = gate_matrix_of(env, base, n)
@@ -372,7 +424,7 @@ def check_mle(env, n, tier):
         tomo = tomography.MLEProcessTomography(n, base, experiment_factory(env, n))
         choi = tomo.process()
         ref = choi_from_unitary(V)
-        fid = tomo.fidelity(ref)
+        fid = _fid(tomo, ref)
         ev = real_np.linalg.eigvalsh((choi + choi.conj().T) / 2)
         d = 2 ** n
         t4 = choi.reshape(d, d, d, d)
